@@ -90,6 +90,8 @@ def build(d):
     if k == "t":
       return m.Text(doc, n["s"])
     el = classes[k](doc)
+    if n.get("id"):
+      el.set_id(n["id"])
     if n.get("b") is not None:
       el.set_begin(fr(n["b"]))
     if n.get("e") is not None:
@@ -132,6 +134,17 @@ def _times(rng, den_choices, horizon):
   r = rng.random()
   if r < 0.25:
     return None, None
+  if rng.random() < 0.06:
+    # a boundary a fraction of a millisecond away from a whole minute / hour (frame- or tick-based sources produce them:
+    # frame 8991 at 30000/1001 fps is 299.9997 s): the clock fields must carry all the way when it is rounded
+    whole = rng.choice([60, 60, 120, 300, 3600, 3600 + 60, 59 * 60]) if rng.random() < 0.8 else 60 * rng.randint(1, 100)
+    delta = rng.choice([Fraction(1, 3000), Fraction(3, 10000), Fraction(4, 10000), Fraction(1, 8000), Fraction(49, 100000),
+                        Fraction(1, 2000), Fraction(6, 10000), Fraction(1, 1000), Fraction(-1, 3000), Fraction(-1, 2000)])
+    x = whole - delta
+    if rng.random() < 0.5:
+      return x, x + Fraction(rng.randint(1, 3 * den), den)
+    b = Fraction(rng.randint(0, 50 * den), den)
+    return (b if rng.random() < 0.7 else None), x
   if r < 0.85:
     b = Fraction(rng.randint(0, horizon * den), den)
     mode = rng.random()
@@ -219,6 +232,8 @@ def _rand_p(rng, nreg, dens, rich, reg_inherited):
        "st": _rand_styles(rng, "p", rich), "kids": []}
   if nreg and not reg_inherited and rng.random() < 0.85:
     p["reg"] = rng.randrange(nreg)
+  if rng.random() < 0.3:
+    p["id"] = _new_id("p")
   if rng.random() < 0.8:
     b, e = _times(rng, dens, 8)
     p["b"], p["e"] = tstr(b), tstr(e)
@@ -243,8 +258,18 @@ def _rand_p(rng, nreg, dens, rich, reg_inherited):
   return p
 
 
+_IDS = [0]
+
+
+def _new_id(prefix):
+  _IDS[0] += 1
+  return "%s%d" % (prefix, _IDS[0])
+
+
 def _rand_div(rng, nreg, dens, rich, depth, reg_inherited):
   dv = {"k": "div", "reg": -1, "kids": []}
+  if rng.random() < 0.5:
+    dv["id"] = _new_id("d")           # xml:id on divisions (their paragraphs may still go to different regions)
   if nreg and not reg_inherited and rng.random() < 0.3:
     dv["reg"] = rng.randrange(nreg)
     reg_inherited = True
@@ -262,6 +287,7 @@ def _rand_div(rng, nreg, dens, rich, depth, reg_inherited):
 def random_doc(rng, rich=True):
   """Seeded random abstract document: 0-3 regions (several active at once), 1-3 div, nested div, several p per div,
   nested spans, br, ruby, default/preserve space, timed div/p/span incl. sub-millisecond and unbounded intervals."""
+  _IDS[0] = 0
   dens = rng.choice([[1], [1, 2], [4], [1, 1000], [1, 3000], [2, 8000], [1, 24]])
   nreg = rng.choice([0, 1, 1, 2, 2, 3])
   regions = []
